@@ -129,7 +129,7 @@ func (fc *funcContext) translateStmt(stmt ast.Stmt, label *types.Label) {
 
 		if label != nil || analysis.HasBreak(clause) {
 			if label != nil {
-				fc.Printf("%s:", sanitizeName(label.Name()))
+				fc.Printf("%s:", labelName(label.Name()))
 			}
 			fc.Printf("switch (0) { default:")
 			fc.Indented(func() {
@@ -336,7 +336,7 @@ func (fc *funcContext) translateStmt(stmt ast.Stmt, label *types.Label) {
 		blockingLabel := ""
 		data := fc.flowDatas[nil]
 		if s.Label != nil {
-			normalLabel = " " + sanitizeName(s.Label.Name)
+			normalLabel = " " + labelName(s.Label.Name)
 			blockingLabel = " s" // use explicit label "s", because surrounding loop may not be flattened
 			data = fc.flowDatas[fc.pkgCtx.Uses[s.Label].(*types.Label)]
 		}
@@ -491,7 +491,7 @@ func (fc *funcContext) translateStmt(stmt ast.Stmt, label *types.Label) {
 	case *ast.LabeledStmt:
 		label := fc.pkgCtx.Defs[s.Label].(*types.Label)
 		if fc.GotoLabel[label] {
-			fc.PrintCond(false, sanitizeName(s.Label.Name)+":", fmt.Sprintf("case %d:", fc.labelCase(label)))
+			fc.PrintCond(false, labelName(s.Label.Name)+":", fmt.Sprintf("case %d:", fc.labelCase(label)))
 		}
 		fc.translateStmt(s.Stmt, label)
 
@@ -616,7 +616,7 @@ func (fc *funcContext) translateBranchingStmt(caseClauses []*ast.CaseClause, def
 	}
 
 	if label != nil && !flatten {
-		fc.Printf("%s:", sanitizeName(label.Name()))
+		fc.Printf("%s:", labelName(label.Name()))
 	}
 
 	condStrs := make([]string, len(caseClauses))
@@ -685,7 +685,7 @@ func (fc *funcContext) translateLoopingStmt(cond func() string, body *ast.BlockS
 	}()
 
 	if !flatten && label != nil {
-		fc.Printf("%s:", sanitizeName(label.Name()))
+		fc.Printf("%s:", labelName(label.Name()))
 	}
 	isTerminated := false
 	fc.PrintCond(!flatten, "while (true) {", fmt.Sprintf("case %d:", data.beginCase))
@@ -904,6 +904,16 @@ func (fc *funcContext) translateResults(results []ast.Expr) string {
 		fc.delayedOutput = nil
 		return " [" + strings.Join(values, ", ") + "]"
 	}
+}
+
+// labelName returns the JavaScript label for a Go label. The label "s" is used by the
+// generated code of resumable functions and must not be taken by a user label.
+func labelName(name string) string {
+	name = sanitizeName(name)
+	if name == "s" {
+		name = "s$"
+	}
+	return name
 }
 
 func (fc *funcContext) labelCase(label *types.Label) int {
